@@ -432,9 +432,13 @@ Definition convert_leading_tabs (s : str) : str :=
 (* the mutually recursive part: the dispatch loop and the container readers.
    `fuel` bounds the nesting depth plus the number of loop iterations. *)
 
-(* the two pieces of process-global state the block phase reads AND writes:
-   the footnotes of the document under construction and Paragraph.parse_setext *)
-Record pstate := mkPs { ps_fn : footnotes; ps_setext : bool }.
+(* The process-global state the block phase reads AND writes is Paragraph.parse_setext.
+   The footnotes of the document under construction are only ever APPENDED to during
+   the block phase (Footnote.read -> append_footnotes) and never read, so they are not
+   threaded: they are the fold of append_footnotes over the definitions of the
+   pre-token tree in document order (defs_of, below); the correspondence run compares
+   the resulting map, order included, with Document.footnotes. *)
+Record pstate := mkPs { ps_setext : bool }.
 
 Section Tokenize.
   Variable types : list block_kind.
@@ -570,8 +574,8 @@ Section Tokenize.
                      if quote_start line then
                        let '(buf, c) := quote_lines after in
                        (* Paragraph.parse_setext = False ... = True around the nested call *)
-                       let '(entries, _, fn') := tokenize_block fuel' buf ln (mkPs (ps_fn fn) false) in
-                       Some (PQuote ln entries, c, mkPs (ps_fn fn') true)
+                       let '(entries, _, _) := tokenize_block fuel' buf ln (mkPs false) in
+                       Some (PQuote ln entries, c, mkPs true)
                      else None
                    | BK_CodeFence =>
                      match codefence_start line with
@@ -599,7 +603,7 @@ Section Tokenize.
                    | BK_Footnote | BK_LinkReferenceDefinitionBlock =>
                      if footnote_start line then
                        match footnote_read after with
-                       | Some (defs, c) => Some (PFootnote ln defs, c, mkPs (append_footnotes defs (ps_fn fn)) (ps_setext fn))
+                       | Some (defs, c) => Some (PFootnote ln defs, c, fn)
                        | None => None
                        end
                      else None
@@ -630,3 +634,12 @@ Section Tokenize.
          end) (S (length lines)) lines start_line [] false fn
     end.
 End Tokenize.
+
+(* the link reference definitions of a pre-token forest, in document order *)
+Fixpoint defs_of (p : pre) : list (str * str * str * str * str) :=
+  match p with
+  | PQuote _ es | PList _ es | PItem _ es _ _ _ _ => flat_map defs_of es
+  | PFootnote _ defs => defs
+  | _ => []
+  end.
+Definition footnotes_of (es : list pre) : footnotes := append_footnotes (flat_map defs_of es) [].
